@@ -565,6 +565,46 @@ pub fn gen(prop: &str, tier: &str, seed: u64) -> Out {
                     }
                 }
             }
+            // decimal spellings: 1..19 significant digits, with / without fraction and exponent; the
+            // reference is std's correctly rounded str::parse (and the exact big-Nat model in Lean)
+            for _ in 0..scale(tier, 2500, 80000) {
+                let nd = 1 + r.below(19) as usize;
+                let mut digits: String = (0..nd).map(|i| if i == 0 { (b'1' + r.below(9) as u8) as char } else { (b'0' + r.below(10) as u8) as char }).collect();
+                if r.chance(1, 3) { digits = format!("9007199254740{}", &digits[..nd.min(4)]); }
+                let point = r.below(digits.len() as u64 + 1) as usize;
+                let mut t = String::new();
+                if r.chance(1, 4) { t.push('-'); }
+                if point == 0 { t.push_str("0."); t.push_str(&digits); }
+                else if point == digits.len() { t.push_str(&digits); if r.chance(1, 2) { t.push_str(".0"); } }
+                else { t.push_str(&digits[..point]); t.push('.'); t.push_str(&digits[point..]); }
+                if r.chance(1, 3) { t.push_str(&format!("{}{}", r.pick(&["e", "E", "e+", "e-"]), r.below(30))); }
+                let is_float = t.contains('.') || t.contains('e') || t.contains('E');
+                if is_float {
+                    if let Ok(f) = t.parse::<f64>() {
+                        if f.is_finite() { o.push(format!("jexpect {} {}", hex(t.as_bytes()), show_value(&Value::Number(Number::Float64(f))))); }
+                    }
+                }
+                o.push(format!("jparse {}", hex(t.as_bytes())));
+                o.stat("text:decimal");
+                // shortest repr of a double around the 2^53 digit-string boundary
+                let f = f64::from_bits(0x3ff0_0000_0000_0000 + (r.next() >> 12)) * [1.0, 10.0, 100.0, 1000.0, 1e-3, 1e5, 1e15][r.below(7) as usize];
+                let t2 = format!("{:?}", f);
+                o.push(format!("jexpect {} {}", hex(t2.as_bytes()), show_value(&Value::Number(Number::Float64(f)))));
+                o.push(format!("jparse {}", hex(t2.as_bytes())));
+            }
+            // every combination of a first escape and a following escape around the surrogate ranges
+            for hi in ["D7FF", "D800", "D83D", "DBFF", "DC00", "DFFF", "E000", "0041"] {
+                for lo in ["0000", "0041", "D7FF", "D800", "DBFF", "DC00", "DC0E", "DFFF", "E000", "E00E", "FFFF"] {
+                    for (a, b) in [(format!("\\u{}", hi), format!("\\u{}", lo)), (format!("\\u{{{}}}", hi), format!("\\u{{{}}}", lo)), (format!("\\u{}", hi), format!("\\u{{{}}}", lo)), (format!("\\u{}", hi.to_lowercase()), format!("x\\u{}", lo))] {
+                        let t = format!("\"{}{}\"", a, b);
+                        o.push(format!("jparse {}", hex(t.as_bytes())));
+                        o.push(format!("spec:jparse {}", hex(t.as_bytes())));
+                        let t = format!("{{\"{}{}\":1,\"k\":[\"{}\"]}}", a, b, a);
+                        o.push(format!("jparse {}", hex(t.as_bytes())));
+                        o.stat("text:escape-pairs");
+                    }
+                }
+            }
             let tricky: &[&[u8]] = &[b"\"\\u", b"\"\\uD800\\u", b"\"\\u{12", b"\"\\ud800A\"", b"\"\\uD800\\u0041\"", b"\"\\uDC00\"", b"\"\\uD83D\\uDE00\"", b"\"\\u{D83D}\\u{DE00}\"",
                 b"-0", b"-", b"01", b"1.", b".5", b"1e", b"1e+", b"1E400", b"-1e400", b"1e-400", b"18446744073709551615", b"18446744073709551616", b"-9223372036854775808", b"-9223372036854775809",
                 b"0.1e1", b"123456789012345678901234567890", b"2.2250738585072011e-308", b"4.9e-324", b"2.4703282292062327e-324", b"2.4703282292062328e-324", b"9007199254740993", b"9007199254740993.0",
@@ -602,6 +642,13 @@ pub fn gen(prop: &str, tier: &str, seed: u64) -> Out {
                 o.push(format!("jpparse {}", hex(t.as_bytes())));
                 o.push(format!("jproundtrip {}", hex(t.as_bytes())));
             }
+            // escapes in unquoted and quoted names, every truncation; explicit parentheses on the right
+            for t in ["$.a\\u{123", "$.a\\u{1234}", "$.b\\u{62}c", "$.\\u{1}", "$.a\\u0062c", "$.\"\\u0041\\u{42}\"", "$.\"x\\u{1F600}\".k\\u00e9", "$.a\\", "$.a\\u", "$?(@.a\\u{12} == 1)",
+                      "$.a ? (@.x == 1 && (@.y == 2 && @.z == 3))", "$.a ? (@.x == 1 || (@.y == 2 || @.z == 3))", "$.a ? ((@.x == 1 || @.y == 2) || @.z == 3)", "$.a ? (@.x == 1 && (@.y == 2 || @.z == 3) && @.w == 4)",
+                      "$.a <> 1", "$.a<>1", "$?(@.p <> 10).t", "$.a >= 1", "$.a <= 1", "$.a != 1", "$.a == 1", "$.a < 1", "$.a > 1"] {
+                for k in 0..=t.len() { if t.is_char_boundary(k) { o.push(format!("jpparse {}", hex(&t.as_bytes()[..k]))); } }
+                o.push(format!("jproundtrip {}", hex(t.as_bytes())));
+            }
         }
         "C16" => {
             use crate::gen_text::*;
@@ -618,6 +665,10 @@ pub fn gen(prop: &str, tier: &str, seed: u64) -> Out {
             for _ in 0..scale(tier, 1500, 40000) {
                 let s = soup(&mut r, &["{", "}", ",", "\"", "\\", "a", "1", "-", " ", "\\u00", "u", "+", "12", "\"b\"", "\t", "é"], 8);
                 o.push(format!("kpparse {}", hex(s.as_bytes())));
+            }
+            for t in ["{a\\u{123", "{a\\u{1234}}", "{0,b\\u{62}}", "{\\u{1}}", "{a\\u{12}", "{a\\u0062c,\"\\u0041\\u{42}\"}", "{\"x\\u{1F600}\",k\\u00e9}", "{a\\", "{a\\u", "{a\\u00", "{\"\\u{"] {
+                for k in 0..=t.len() { if t.is_char_boundary(k) { o.push(format!("kpparse {}", hex(&t.as_bytes()[..k]))); } }
+                o.push(format!("kproundtrip {}", hex(t.as_bytes())));
             }
             for t in ["{\"abc", "{\"\"}", "{", "}", "{}", " { } ", "{a", "{1,}", "{,}", "{-}", "{+1}", "{2147483648}", "{-2147483649}", "{a\\", "{\"a\\\"}", "{a,\"b\",-2}x"] {
                 o.push(format!("kpparse {}", hex(t.as_bytes())));
@@ -864,6 +915,20 @@ pub fn gen(prop: &str, tier: &str, seed: u64) -> Out {
                     let mut it = l.split(' ');
                     let _op = it.next();
                     if let Some(pre) = it.next() { if pre != "-" && r.chance(1, 4) { o.push(l.clone()); } }
+                }
+            }
+            // selector writers (data holds earlier results, the offsets vector may be fresh) and the
+            // comparable-key writer
+            for sub in ["C08", "C14"] {
+                let o2 = gen(sub, tier, seed ^ 0x17);
+                for l in o2.lines {
+                    let f: Vec<&str> = l.split(' ').collect();
+                    let keep = match f[0] {
+                        "select" | "spec:select" => f.len() > 2 && f[2] != "-",
+                        "getpath" | "getpathfirst" | "getpatharray" | "cmpkey" => f.len() > 1 && f[1] != "-",
+                        _ => false,
+                    };
+                    if keep && r.chance(1, 3) { o.push(l.clone()); }
                 }
             }
         }
